@@ -1472,8 +1472,7 @@ def register_short_tip(R):
         return True
 
     LOOPS = {1: dict(invariant=[("path-runs-from-the-node-through-the-child-along-first-children", walk_inv)], types={"path": "int"}, rebind={"child": opt_node})}
-    for k in (0, 1, 2, 3):
-        pass
+    _SUBTREE_KIT.update(WALK_LOOP=LOOPS[1])
     R.add(f"{TT}:CutShortTipBranch._leave", prop="C06",
           variants={f"{k} child result{'s' if k != 1 else ''}": setup(k) for k in (0, 1, 2, 3)},
           requires=[K["wf_clause"](w, lambda v: v["n"].fields["attach"]) for w in K["WF"]] + [("handle-in-range", pre("handle-in-range")), ("child-results-name-children-of-the-node", pre("children"))],
@@ -1576,3 +1575,262 @@ _reg6g = register
 def register(R):  # noqa: F811
     _reg6g(R)
     register_neurites(R)
+
+
+# =========================================================================== CutShortTipBranch.__call__ (whole traversal, any number of children)
+def register_short_tip_call(R):
+    from pyvc.traverse_rule import Rule
+    from pyvc.values import Obj, PList, fresh
+
+    K = _SUBTREE_KIT
+    nof, col, sel, list_view = K["nof"], K["col"], K["sel"], K["list_view"]
+    I, B, RS = z3.IntSort(), z3.BoolSort(), z3.RealSort()
+    TT = "swcgeom/transforms/tree.py"
+    LEAVE = f"{TT}:CutShortTipBranch._leave"
+
+    def setup(with_callback):
+        def f(S):
+            from swcgeom.transforms.tree import CutShortTipBranch
+
+            t = K["raw_tree"](S)
+            cbs = PList([S.callback("user_callback", lambda E, a, kw: None)] if with_callback else [])
+            G = Obj(GhostList, dict(at=SArr(z3.K(I, z3.IntVal(-1)), nof(t), "int", name="at")))  # ghost: position of a node in `removals`
+            return dict(self=S.obj(CutShortTipBranch, thre=S.real("thre"), callbacks=cbs), x=t, __ghost__=dict(G6=G))
+
+        return f
+
+    G6 = lambda E: E.spec_extra["G6"]
+
+    def sq_dist(t, a, b):
+        d = [col(t, c).get(a).z - col(t, c).get(b).z for c in "xyz"]
+        return d[0] * d[0] + d[1] * d[1] + d[2] * d[2]
+
+    def ghosts(E, ctx):
+        """ghost definitions, made once per path when the traversal starts (recursion over the finite tree, children first):
+        DIST(a, b) = Euclidean distance of rows a, b;   TC(x) = the nodes below x form a single chain down to a tip (x is a tip, or x
+        has exactly one child and that child is TC);   LEN(x) = length of that chain from x to its tip"""
+        if "tip-ghosts" not in E.spec_extra:
+            t = E.top_old["x"]
+            n = nof(t)
+            DIST, TC, LEN = z3.Function(fresh_name("DIST"), I, I, RS), z3.Function(fresh_name("TC"), I, B), z3.Function(fresh_name("LEN"), I, RS)
+            a, b, x = z3.Int(fresh_name("a")), z3.Int(fresh_name("b")), z3.Int(fresh_name("x"))
+            E.assume(z3.ForAll([a, b], z3.And(DIST(a, b) >= 0, DIST(a, b) * DIST(a, b) == sq_dist(t, a, b)), patterns=[DIST(a, b)]))
+            k0 = ctx.kid(x, 0)
+            E.assume(z3.ForAll([x], z3.Implies(z3.And(x >= 0, x < n), z3.And(
+                TC(x) == z3.Or(ctx.nkids(x) == 0, z3.And(ctx.nkids(x) == 1, TC(k0))),
+                LEN(x) == z3.If(ctx.nkids(x) == 0, z3.RealVal(0), LEN(k0) + DIST(x, k0))))))
+            E.assumptions.add("ghost definitions (recursion over the finite tree, children first): DIST (Euclidean distance of two rows), TC (single chain down to a tip), LEN (length of that chain) of CutShortTipBranch")
+            E.spec_extra["tip-ghosts"] = (DIST, TC, LEN, to_z3(E.top_old["self"].fields["thre"], "real"))
+        return E.spec_extra["tip-ghosts"]
+
+    def seed_pred(E, ctx, t):
+        """c starts a tip branch no longer than the threshold at a furcation (a node with two or more children)"""
+        DIST, TC, LEN, thre = ghosts(E, ctx)
+        P, n = col(t, "pid").arr, nof(t)
+        return lambda c: z3.And(c >= 0, c < n, sel(P, c) >= 0, ctx.nkids(sel(P, c)) >= 2, TC(c), LEN(c) + DIST(sel(P, c), c) <= thre)
+
+    def J(E, v, ENT, LEFT, ctx):
+        """`removals` lists exactly the first nodes of the short tip branches hanging at the furcations left so far, each once
+        (ghost inverse `at`)"""
+        t = v["x"]
+        seed = seed_pred(E, ctx, t)
+        P = col(t, "pid").arr
+        A, ln = list_view(v["removals"])
+        at = G6(E).fields["at"].arr
+        a, c = z3.Int(fresh_name("a")), z3.Int(fresh_name("c"))
+        mem = lambda q: z3.And(seed(q), sel(LEFT, sel(P, q)))
+        return z3.And(ln >= 0, z3.ForAll([a], z3.Implies(z3.And(a >= 0, a < ln), z3.And(mem(sel(A, a)), sel(at, sel(A, a)) == a))),
+                      z3.ForAll([c], z3.Implies(mem(c), z3.And(sel(at, c) >= 0, sel(at, c) < ln, sel(A, sel(at, c)) == c))))
+
+    def Ql(E, v, x, val, ctx):
+        DIST, TC, LEN, thre = ghosts(E, ctx)
+        if val is None:
+            return z3.Not(TC(x))
+        if not (isinstance(val, tuple) and len(val) == 2 and isinstance(val[1], Obj) and val[1].fields.get("attach") is v["x"]):
+            return False
+        return z3.And(TC(x), to_z3(val[0], "real") == LEN(x), to_z3(val[1].fields["idx"], "int") == x)
+
+    def leave_args(E, v, x, ctx):
+        """the child results handed to _leave at x: entry k describes the k-th child (None iff no single chain runs below it)"""
+        from swcgeom.core.tree import Tree
+
+        DIST, TC, LEN, thre = ghosts(E, ctx)
+        t = v["x"]
+
+        def seed_root(eng, lst, kz):
+            # the square root the code takes for (x, k-th child) IS the ghost distance (same polynomial, both roots non-negative)
+            c = z3.Select(lst.node, kz)
+            key = ("sqrt", z3.simplify(sq_dist(t, x, c), som=True).sexpr())
+            eng.ghost.setdefault(key, Sym(DIST(x, c), "real"))
+
+        args = ext_C06.OptPairList(ctx.nkids(x), t, Tree.Node, on_element=seed_root)
+        k = z3.Int(fresh_name("k"))
+        c = ctx.kid(x, k)
+        E.assume(z3.ForAll([k], z3.Implies(z3.And(0 <= k, k < ctx.nkids(x)), z3.And(z3.Select(args.none, k) == z3.Not(TC(c)), z3.Select(args.node, k) == c,
+                                                                                   z3.Implies(TC(c), z3.Select(args.dis, k) == LEN(c))))))
+        A, ln = list_view(v["removals"])
+        # ghost definition (recursion over the naturals): CNT(j) = how many of the first j children of x start a short tip branch
+        CNT = z3.Function(fresh_name("CNT"), I, I)
+        j = z3.Int(fresh_name("j"))
+        memx = lambda q: z3.And(TC(q), LEN(q) + DIST(x, q) <= thre)
+        E.assume(z3.And(CNT(0) == 0, z3.ForAll([j], z3.Implies(j >= 0, CNT(j + 1) == CNT(j) + z3.If(memx(ctx.kid(x, j)), 1, 0)), patterns=[CNT(j + 1)])))
+        E.ghost["ctb-step"] = dict(x=x, A0=A, r0=ln, args=args, ctx=ctx, CNT=CNT, memx=memx)
+        return args
+
+    def ghost_leave(E, v, x, ctx):
+        """every child of x that starts a short tip branch now sits in `removals` at position r0 + (number of such children before it)"""
+        st = E.ghost["ctb-step"]
+        g = G6(E).fields["at"]
+        c = z3.Int(fresh_name("c"))
+        st["at_old"] = g.arr
+        g.arr = z3.Lambda([c], z3.If(z3.And(ctx.R(c), sel(ctx.P, c) == x, st["memx"](c)), st["r0"] + st["CNT"](ctx.rank(c)), sel(g.arr, c)))
+
+    def leave_result(E):
+        from swcgeom.core.tree import Tree
+
+        if E.branch(fresh("bool", "root_result_is_none")):
+            return None
+        t = E.top_old["x"]
+        live = E.cur_frame.lookup("x") if E.cur_frame is not None else None
+        return (fresh("real", "root_len"), Obj(Tree.Node, dict(attach=live, idx=fresh("int", "root_at"), names=t.fields["names"])))
+
+    def recorder_list(fr_or_vars):
+        me = fr_or_vars.lookup("self") if hasattr(fr_or_vars, "lookup") else fr_or_vars["self"]
+        lam = me.fields["callbacks"].items[-1]
+        return lam.frame.lookup("removals")
+
+    def for_inv(which):
+        """_leave's loop over the child results at x: `removals` has grown by exactly the short tip-chain children among the first k,
+        the j-th child (if it is one) at position r0 + CNT(j)"""
+        def f(E, v, o, entry):
+            st = E.ghost.get("ctb-step")
+            if st is None:
+                return False
+            x, A0, r0, ctx, CNT, memx = st["x"], st["A0"], st["r0"], st["ctx"], st["CNT"], st["memx"]
+            t = v["n"].fields["attach"]
+            P = col(t, "pid").arr
+            A, ln = list_view(recorder_list(v))
+            k = to_z3(v["_k0"], "int")
+            a, j = z3.Int(fresh_name("a")), z3.Int(fresh_name("j"))
+            if which == "earlier-entries-kept-and-one-new-entry-per-short-tip-chain-child-so-far":
+                return z3.And(ln == r0 + CNT(k), CNT(k) >= 0, z3.ForAll([a], z3.Implies(z3.And(a >= 0, a < r0), sel(A, a) == sel(A0, a))))
+            if which == "counts-never-decrease":
+                return z3.ForAll([j], z3.Implies(z3.And(0 <= j, j <= k), z3.And(CNT(j) >= 0, CNT(j) <= CNT(k))))
+            if which == "short-tip-chain-children-seen-so-far-sit-at-their-count":
+                return z3.ForAll([j], z3.Implies(z3.And(0 <= j, j < k, memx(ctx.kid(x, j))), z3.And(CNT(j) < CNT(k), sel(A, r0 + CNT(j)) == ctx.kid(x, j))))
+            if which == "new-entries-are-short-tip-chain-children-seen-so-far":
+                q = sel(A, a)
+                return z3.ForAll([a], z3.Implies(z3.And(a >= r0, a < ln), z3.And(ctx.R(q), sel(P, q) == x, ctx.rank(q) >= 0, ctx.rank(q) < k, memx(q), a == r0 + CNT(ctx.rank(q)))))
+            raise KeyError(which)
+
+        return f
+
+    def for_hint(E, v):
+        """iteration k appended (at most) the k-th child: name the appended value before the invariant is re-proved"""
+        st = E.ghost.get("ctb-step")
+        if st is None or "_k0" not in v or "n" not in v:
+            return
+        x, ctx = st["x"], st["ctx"]
+        k = to_z3(v["_k0"], "int") - 1  # the iteration just completed
+        A, ln = list_view(recorder_list(v))
+        if "br" in v and v.get("child") is None and "path" in v:  # this iteration recorded a branch
+            c = ctx.kid(x, k)
+            E.prove("CutShortTipBranch.__call__/step/the-recorded-node-is-the-child-of-this-iteration", z3.And(sel(A, ln - 1) == c, ctx.rank(c) == k, sel(ctx.P, c) == x, ctx.R(c)), "annotation")
+
+    def leave_hint(E, v):
+        """leave step at x: how the ghost inverse `at` and the list changed, piece by piece"""
+        st = E.ghost.get("ctb-step")
+        if st is None or "at_old" not in st:
+            return
+        x, A0, r0, ctx, CNT, memx = st["x"], st["A0"], st["r0"], st["ctx"], st["CNT"], st["memx"]
+        A, ln = list_view(v["removals"])
+        at1, at0 = G6(E).fields["at"].arr, st["at_old"]
+        P = ctx.P
+        a, c = z3.Int(fresh_name("a")), z3.Int(fresh_name("c"))
+        pre = "CutShortTipBranch.__call__/step/"
+        E.prove(pre + "positions-of-nodes-under-other-parents-unchanged", z3.ForAll([c], z3.Implies(z3.And(ctx.R(c), sel(P, c) != x), sel(at1, c) == sel(at0, c))), "annotation")
+        E.prove(pre + "earlier-entries-kept-and-they-hang-under-other-parents", z3.And(ln >= r0, z3.ForAll([a], z3.Implies(z3.And(a >= 0, a < r0), z3.And(sel(A, a) == sel(A0, a), sel(P, sel(A, a)) != x)))), "annotation")
+        E.prove(pre + "new-entries-are-the-short-tip-chain-children-of-this-furcation-at-their-positions",
+                z3.ForAll([a], z3.Implies(z3.And(a >= r0, a < ln), z3.And(ctx.nkids(x) >= 2, ctx.R(sel(A, a)), sel(P, sel(A, a)) == x, memx(sel(A, a)), sel(at1, sel(A, a)) == a))), "annotation")
+        E.prove(pre + "every-short-tip-chain-child-of-this-furcation-is-listed-at-its-position",
+                z3.Implies(ctx.nkids(x) >= 2, z3.ForAll([c], z3.Implies(z3.And(ctx.R(c), sel(P, c) == x, memx(c)), z3.And(sel(at1, c) >= r0, sel(at1, c) < ln, sel(A, sel(at1, c)) == c)))), "annotation")
+
+    FOR_INVS = ["earlier-entries-kept-and-one-new-entry-per-short-tip-chain-child-so-far", "counts-never-decrease",
+                "short-tip-chain-children-seen-so-far-sit-at-their-count", "new-entries-are-short-tip-chain-children-seen-so-far"]
+    FOR_LOOP = dict(invariant=[(w, for_inv(w)) for w in FOR_INVS], modifies=[lambda eng, fr: recorder_list(fr)])
+
+    def result_of(E):
+        calls = [kw for nm, kw in E.call_log if nm == "to_subtree"]
+        return calls[0] if len(calls) == 1 else None
+
+    def post(which):
+        def f(E, v, o):
+            res, t = v["result"], o["x"]
+            c = result_of(E)
+            ctx = E.ghost.get("last-traverse-ctx")
+            if which == "callbacks-restored":
+                cb1, cb0 = v["self"].fields["callbacks"], o["self"].fields["callbacks"]
+                return cb1.uid == cb0.uid and cb1.items is not None and len(cb1.items) == len(cb0.items) and all(p is q for p, q in zip(cb1.items, cb0.items))
+            if c is None or ctx is None or res is not c["__result__"] or c["swc_like"] is not v["x"] or c["out_mapping"] is not None:
+                return False
+            gh = K["sub_ghost"](E, res)
+            P, n = col(t, "pid").arr, nof(t)
+            x, a, b = z3.Int(fresh_name("x")), z3.Int(fresh_name("a")), z3.Int(fresh_name("b"))
+            Rg = lambda q: z3.And(q >= 0, q < n)
+            if which == "a-furcation-is-a-node-that-two-distinct-rows-name-as-parent":
+                return z3.ForAll([x], z3.Implies(Rg(x), (ctx.nkids(x) >= 2) == z3.Exists([a, b], z3.And(Rg(a), Rg(b), a != b, sel(P, a) == x, sel(P, b) == x))))
+            if which == "removal-closure-is-removed-or-below-a-removed-node":
+                return K["subtree_clause"](E, which, res, t, gh, seed=seed_pred(E, ctx, t))
+            return K["subtree_clause"](E, which, res, t, gh)
+
+        return f
+
+    def furc_hint(E, v):
+        ctx, c = E.ghost.get("last-traverse-ctx"), result_of(E)
+        if ctx is None or c is None:
+            return
+        t = c["swc_like"]
+        P, n = col(t, "pid").arr, nof(t)
+        x, a, b = z3.Int(fresh_name("x")), z3.Int(fresh_name("a")), z3.Int(fresh_name("b"))
+        Rg = lambda q: z3.And(q >= 0, q < n)
+        k0, k1 = ctx.kid(x, 0), ctx.kid(x, 1)
+        pre = "CutShortTipBranch.__call__/step/"
+        E.prove(pre + "the-first-two-children-are-two-distinct-rows", z3.ForAll([x], z3.Implies(z3.And(Rg(x), ctx.nkids(x) > 1), z3.And(Rg(k0), Rg(k1), k0 != k1, sel(P, k0) == x, sel(P, k1) == x))), "annotation")
+        E.prove(pre + "two-distinct-rows-with-one-parent-take-two-places-among-its-children",
+                z3.ForAll([a, b], z3.Implies(z3.And(Rg(a), Rg(b), a != b, sel(P, a) == sel(P, b), sel(P, a) >= 0), ctx.nkids(sel(P, a)) > 1)), "annotation")
+
+    def listed_hint(E, v):
+        ctx, c = E.ghost.get("last-traverse-ctx"), result_of(E)
+        if ctx is None or c is None:
+            return
+        t = c["swc_like"]
+        seed = seed_pred(E, ctx, t)
+        A, ln = list_view(c["removals"])
+        x, j = z3.Int(fresh_name("x")), z3.Int(fresh_name("j"))
+        E.prove("CutShortTipBranch.__call__/step/listed-iff-first-node-of-a-short-tip-branch-at-a-furcation",
+                z3.ForAll([x], z3.Implies(z3.And(x >= 0, x < nof(t)), z3.Exists([j], z3.And(j >= 0, j < ln, sel(A, j) == x)) == seed(x))), "annotation")
+
+    POSTS = ["a-furcation-is-a-node-that-two-distinct-rows-name-as-parent", "removal-closure-is-removed-or-below-a-removed-node",
+             "survivors-are-exactly-the-nodes-outside-the-closure-in-order", "survivors-keep-every-attribute",
+             "ids-are-positions-and-parent-relation-kept", "result-shares-no-storage-with-the-input", "callbacks-restored"]
+    LABEL = {"removal-closure-is-removed-or-below-a-removed-node": "removed-iff-first-node-of-a-tip-branch-within-the-threshold-at-a-furcation-or-below-a-removed-node",
+             "callbacks-restored": "the-callback-list-is-as-it-was"}
+    R.add(f"{TT}:CutShortTipBranch.__call__", prop="C06",
+          variants={"no user callback": setup(False), "with a user callback": setup(True)},
+          requires=[K["wf_clause"](w, "x") for w in K["WF"]],
+          ensures=[(LABEL.get(nm, nm), post(nm)) for nm in POSTS],
+          inlined_loops={LEAVE: {0: FOR_LOOP, 1: K["WALK_LOOP"]}},
+          options=dict(traverse_rule=Rule(J, Ql=Ql, modifies=[("removals", "int"), G6], leave_args=leave_args, leave_result=leave_result, ghost_leave=ghost_leave),
+                       models=ext_C06.MODELS,
+                       hints={"post/a-furcation-is-a-node-that-two-distinct-rows-name-as-parent": furc_hint, "loop0/preserved/earlier-entries-kept-and-one-new-entry-per-short-tip-chain-child-so-far": for_hint, "leave/invariant-preserved": leave_hint,
+                              "post/removed-iff-first-node-of-a-tip-branch-within-the-threshold-at-a-furcation-or-below-a-removed-node": listed_hint}),
+          notes="_leave is interpreted from source (inlined) under the traverse rule for ANY number of children; to_subtree through its proved contract; "
+                "tip branch = a child of a furcation below which a single chain runs to a tip; its length is measured from the furcation")
+
+
+_reg6h = register
+
+
+def register(R):  # noqa: F811
+    _reg6h(R)
+    register_short_tip_call(R)
